@@ -91,6 +91,29 @@ func findWalker(c *Check, rule string) *walkerInfo {
 			}
 		}
 	}
+	// the cancel function of the walker is the walker's own method through which the channel is closed: a
+	// closer that lives on the per-node record (or behind sync.Once.Do) is lifted to its only caller
+	for i := 0; i < 4 && w.CancelNode != nil; i++ {
+		if rv := w.CancelNode.Signature.Recv(); rv != nil && engine.TypeKey(rv.Type()) == "dag.Walker" {
+			break
+		}
+		var up *ssa.Function
+		multi := false
+		for _, cs := range c.G.CallersOf(w.CancelNode) {
+			p := engine.TopFunc(cs.Parent())
+			if p == nil || p == w.CancelNode || !engine.InPackage(p, "dag") {
+				continue
+			}
+			if up != nil && up != p {
+				multi = true
+			}
+			up = p
+		}
+		if up == nil || multi {
+			break
+		}
+		w.CancelNode = up
+	}
 	if w.Routine != nil {
 		for _, fn := range c.P.Funcs {
 			for _, b := range fn.Blocks {
